@@ -33,6 +33,7 @@ func keyCtx(k string) context.Context {
 type stack struct {
 	name    string
 	st      core.Strategy
+	busy    func() int
 	limit   func() int
 	nums    []int // fractions of 32 per partition
 	binLim  func(i int) int
@@ -52,10 +53,10 @@ func buildStack(r *rand.Rand, initial int) stack {
 	switch r.IntN(4) {
 	case 0:
 		s := strategy.NewSimpleStrategy(initial)
-		return stack{name: "simple", st: s, limit: s.GetLimit, keys: []string{""}}
+		return stack{name: "simple", st: s, limit: s.GetLimit, busy: s.GetBusyCount, keys: []string{""}}
 	case 1:
 		s := strategy.NewPreciseStrategy(initial)
-		return stack{name: "precise", st: s, limit: s.GetLimit, keys: []string{""}}
+		return stack{name: "precise", st: s, limit: s.GetLimit, busy: s.GetBusyCount, keys: []string{""}}
 	}
 	n := 1 + r.IntN(3)
 	nums := make([]int, n)
@@ -183,39 +184,65 @@ func scenario(t *testing.T, idx int64, r *rand.Rand) {
 		}
 		verify("after-construction", rec.EstimatedLimit())
 		if concurrent {
-			var wg sync.WaitGroup
+			// gauge pollers: readers of the strategy's limit / busy count (what a metric registry does), running throughout
+			stopPoll := make(chan struct{})
+			var pollers sync.WaitGroup
+			for p := 0; p < 2; p++ {
+				pollers.Add(1)
+				go func() {
+					defer pollers.Done()
+					for {
+						select {
+						case <-stopPoll:
+							return
+						default:
+							sk.limit()
+							if sk.busy != nil {
+								sk.busy()
+							}
+						}
+					}
+				}()
+			}
+			defer func() { close(stopPoll); pollers.Wait() }()
 			seeds := make([]uint64, 8)
 			for i := range seeds {
 				seeds[i] = r.Uint64()
 			}
-			for g := 0; g < 8; g++ {
-				wg.Add(1)
-				go func(g int) {
-					defer wg.Done()
-					lr := rand.New(rand.NewPCG(seeds[g], 5))
-					for i := 0; i < 120; i++ {
-						l, ok := dl.Acquire(keyCtx(sk.keys[lr.IntN(len(sk.keys))]))
-						if !ok {
-							runtime.Gosched()
-							continue
+			for round := 0; round < 10 && !bad; round++ {
+				var wg sync.WaitGroup
+				for g := 0; g < 8; g++ {
+					wg.Add(1)
+					go func(g int) {
+						defer wg.Done()
+						lr := rand.New(rand.NewPCG(seeds[g], uint64(5+round)))
+						for i := 0; i < 12; i++ {
+							l, ok := dl.Acquire(keyCtx(sk.keys[lr.IntN(len(sk.keys))]))
+							if !ok {
+								runtime.Gosched()
+								continue
+							}
+							if lr.IntN(2) == 0 {
+								runtime.Gosched()
+							}
+							if lr.IntN(6) == 0 {
+								l.OnDropped()
+							} else {
+								l.OnSuccess()
+							}
 						}
-						if lr.IntN(2) == 0 {
-							runtime.Gosched()
-						}
-						if lr.IntN(6) == 0 {
-							l.OnDropped()
-						} else {
-							l.OnSuccess()
-						}
-					}
-				}(g)
+					}(g)
+				}
+				wg.Wait()
+				hook := rec.OnEstimate
+				rec.OnEstimate = nil
+				updates = rec.Count()
+				if s, ok := rec.Last(); ok {
+					verify("at-quiescence-after-concurrent-updates", s.EstAfter)
+				}
+				rec.OnEstimate = hook
 			}
-			wg.Wait()
 			rec.OnEstimate = nil
-			updates = rec.Count()
-			if s, ok := rec.Last(); ok {
-				verify("at-quiescence-after-concurrent-updates", s.EstAfter)
-			}
 		} else {
 			var held []core.Listener
 			for i := 0; i < 150+r.IntN(400) && !bad; i++ {
